@@ -39,6 +39,13 @@ typedef struct lltd_iface_state {
 
 static lltd_iface_state *g_iface_states = NULL;
 
+/*
+ * Upper bound on recorded-but-not-yet-queried probe observations per
+ * interface; further distinct observations are dropped until a Query or
+ * Reset drains the list.
+ */
+#define LLTD_SEE_LIST_MAX 1024u
+
 #define log_debug(...) lltd_port_log_debug(__VA_ARGS__)
 #define log_warning(...) lltd_port_log_warning(__VA_ARGS__)
 #define log_err(...) lltd_port_log_warning(__VA_ARGS__)
@@ -520,6 +527,10 @@ static void parseProbe(void *inFrame, lltd_iface_state *st, void *iface_ctx) {
 
     bool forUs = compareEthernetAddress(&header->realDestination, &our_mac);
     if (!forUs) {
+        return;
+    }
+
+    if (st->see_list_count >= LLTD_SEE_LIST_MAX) {
         return;
     }
 
